@@ -221,7 +221,7 @@ func (k *checker) faulty() {
 				var st uploadStatus
 				if json.Unmarshal(resp, &st) == nil && len(st.FileIDs) == nfiles && nfiles >= 1 && vcase.KnownListed("C20-b") {
 					v.KnownHit("C20-b")
-					v.Label("trunc:known_C20-b")
+					v.Label("known_c20b")
 					mustFail = false
 					delivered = full[:nfiles]
 				}
@@ -410,7 +410,9 @@ func (k *checker) faulty() {
 	for _, id := range k.deadIDs {
 		k.noteID(id, "failed upload")
 	}
+	k.checkingFailure = true
 	k.verifyState("after the failed upload ("+describe(f)+")", k.deadIDs, []string{tag})
+	k.checkingFailure = false
 	if v.Violation != "" {
 		return
 	}
@@ -450,6 +452,7 @@ func (k *checker) faulty() {
 			v.Violation = "after the failed upload (" + describe(f) + "), left-over earlier file: " + v.Violation
 			return
 		}
+		k.tolerated[name] = true
 		left++
 	}
 	if left > 0 {
@@ -562,6 +565,30 @@ func genUpload(t *rapid.T, maxFiles, maxLines int, wide bool) Upload {
 	return u
 }
 
+// uniform draws an integer in [0, n) without rapid's bias towards small
+// values: single bits are unbiased, so the value is assembled from bits
+// (rejection with a bounded number of retries, then reduction modulo n).
+func uniform(t *rapid.T, n int, label string) int {
+	if n <= 1 {
+		return 0
+	}
+	nbits := 0
+	for 1<<nbits < n {
+		nbits++
+	}
+	u := 0
+	for try := 0; try < 4; try++ {
+		u = 0
+		for i := 0; i < nbits; i++ {
+			u = u<<1 | rapid.IntRange(0, 1).Draw(t, label)
+		}
+		if u < n {
+			return u
+		}
+	}
+	return u % n
+}
+
 // Gen draws a scenario; the fault position is uniform over all positions of
 // the drawn upload, except that half of the truncation offsets are taken from
 // the offsets within 3 bytes of a part boundary or line end.
@@ -584,15 +611,16 @@ func Gen(t *rapid.T) Case {
 		bd := buildBody(uploadParts(c.Target, "t"))
 		off := 0
 		if rapid.Bool().Draw(t, "hot") {
-			off = rapid.SampledFrom(hotOffsets(bd)).Draw(t, "hotoff")
+			hot := hotOffsets(bd)
+			off = hot[uniform(t, len(hot), "hotoff")]
 		} else {
-			off = rapid.IntRange(0, len(bd.body)-1).Draw(t, "off")
+			off = uniform(t, len(bd.body), "off")
 		}
 		cut := rapid.SampledFrom([]string{"eof", "eof", "eof", "uerr", "uerr", "tcp-half", "tcp-close"}).Draw(t, "cut")
 		c.Fault = Fault{Kind: "trunc", Off: off, Cut: cut}
 	case "fs":
 		N := fsCalls(c)
-		c.Fault = Fault{Kind: "fs", K: rapid.IntRange(0, N-1).Draw(t, "k"), Partial: rapid.Bool().Draw(t, "partial"), Sticky: rapid.Bool().Draw(t, "sticky")}
+		c.Fault = Fault{Kind: "fs", K: uniform(t, N, "k"), Partial: rapid.Bool().Draw(t, "partial"), Sticky: rapid.Bool().Draw(t, "sticky")}
 	case "nobench":
 		c.Fault = Fault{Kind: "nobench", File: rapid.IntRange(0, n-1).Draw(t, "file"), Variant: rapid.IntRange(0, 2).Draw(t, "variant")}
 	case "field":
